@@ -369,6 +369,65 @@ fn main() {
           }
         }
       }
+      "actor_early_data" => {
+        // public API only: a PULL socket listens on TCP; a raw peer writes greeting + READY + one data frame
+        // either in ONE write (split=0) or with the data frame in a second, later write (split=1).
+        let split: u32 = it.next().unwrap().parse().unwrap();
+        let rt = tokio::runtime::Builder::new_multi_thread().worker_threads(2).enable_all().build().unwrap();
+        let res = rt.block_on(async move {
+          use std::io::{Read, Write};
+          let ctx = rzmq::Context::new().unwrap();
+          let pull = ctx.socket(rzmq::SocketType::Pull).unwrap();
+          pull.set_option(rzmq::socket::options::RCVTIMEO, 1500i32).await.unwrap();
+          pull.bind("tcp://127.0.0.1:0").await.unwrap();
+          let ep = String::from_utf8(pull.get_option(rzmq::socket::options::LAST_ENDPOINT).await.unwrap()).unwrap();
+          let addr = ep.trim_start_matches("tcp://").to_string();
+          let mut greeting = vec![0xFFu8, 0, 0, 0, 0, 0, 0, 0, 0, 0x7F, 3, 1];
+          let mut mech = b"NULL".to_vec();
+          mech.resize(20, 0);
+          greeting.extend_from_slice(&mech);
+          greeting.push(0);
+          greeting.extend_from_slice(&[0u8; 31]);
+          let mut ready = b"\x05READY\x0bSocket-Type\x00\x00\x00\x04PUSH".to_vec();
+          let mut hs = greeting.clone();
+          hs.push(0x04);
+          hs.push(ready.len() as u8);
+          hs.append(&mut ready);
+          let data = vec![0x00u8, 0x05, b'h', b'e', b'l', b'l', b'o'];
+          let peer = tokio::task::spawn_blocking(move || {
+            let mut s = std::net::TcpStream::connect(addr).unwrap();
+            s.set_nodelay(true).ok();
+            if split == 0 {
+              let mut all = hs.clone();
+              all.extend_from_slice(&data);
+              s.write_all(&all).unwrap();
+            } else {
+              s.write_all(&hs).unwrap();
+              std::thread::sleep(Duration::from_millis(300));
+              s.write_all(&data).unwrap();
+            }
+            s.set_read_timeout(Some(Duration::from_millis(2500))).ok();
+            let mut buf = [0u8; 256];
+            let mut total = 0;
+            for _ in 0..6 {
+              match s.read(&mut buf) {
+                Ok(0) | Err(_) => break,
+                Ok(n) => total += n,
+              }
+              if total >= 64 + 28 {
+                break;
+              }
+            }
+            std::thread::sleep(Duration::from_millis(1800));
+            total
+          });
+          let got = pull.recv().await;
+          let _ = peer.await;
+          format!("{:?}", got.map(|m| String::from_utf8_lossy(m.data().unwrap_or(&[])).into_owned()))
+        });
+        println!("actor_early_data split={} recv={}", split, res);
+        std::process::exit(0);
+      }
       "inproc" => {
         use rzmq::SocketType;
         fn st(s: &str) -> SocketType {
